@@ -25,14 +25,20 @@ def sigTypeOf (lf : Leaf) : SigType :=
   | .int32 => .bitvec 32
 
 /-- the dump of the FST rendering of a design, values through the model of `SignalWriter` -/
-def model (design unit : String) : String :=
-  match parseDesign design with
-  | none => "bad-request"
-  | some (items, w) =>
+def model (design exp : String) : String :=
+  match parseDesign design, exp.toInt? with
+  | none, _ => "bad-request"
+  | _, none => "bad-request"
+  | some (items, w), some e =>
     match denote items w with
     | none => "bad-request"
     | some d =>
-      let div := if unit = "fs" then 1 else 1000
+      let div := 10 ^ (e + 15).toNat
+      -- `convert_timescale` (model of the code); `none` = panic
+      match convertTimescale e with
+      | none => "panic"
+      | some (factor, unitExp) =>
+      let unitName := ["Seconds", "MilliSeconds", "MicroSeconds", "NanoSeconds", "PicoSeconds", "FemtoSeconds"].getD ((-unitExp) / 3).toNat "?"
       let table : List (Option String) := (List.range d.leaves.length).map fun i =>
         let tp := sigTypeOf (d.leaves.getD i default)
         match callbacks (d.changes.getD i []) with
@@ -41,6 +47,6 @@ def model (design unit : String) : String :=
       if table.any Option.isNone then "panic" else
       match treeB (fstOps d) (fun i => (table.getD i none).getD "?") with
       | none => "panic"
-      | some t => t ++ "|tt=" ++ natList (d.times.map (· / div)) ++ "|ts=1:" ++ (if div = 1 then "FemtoSeconds" else "PicoSeconds")
+      | some t => t ++ "|tt=" ++ natList (d.times.map (· / div)) ++ s!"|ts={factor}:{unitName}"
 
 end Wellen.FstFile
